@@ -27,6 +27,7 @@ type c09Gen struct {
 	files  []DFile
 	guard  *ast.Node // rule pattern (nil, or $index == 0 for array roots)
 	uset   map[string]bool
+	cur    *ref.Result // reference state before the action being generated
 }
 
 func (g *c09Gen) n(lo, hi int, l string) int { return rapid.IntRange(lo, hi).Draw(g.t, l) }
@@ -80,6 +81,13 @@ func (g *c09Gen) container() *ast.Node {
 
 // value to store: scalar, fresh container, or an alias of an existing container.
 func (g *c09Gen) value(globals map[string]ref.V) *ast.Node {
+	if g.cur != nil && g.n(0, 6, "fromread") == 0 {
+		// the value read from another (possibly missing) path: the copy must not stay
+		// connected to the place it was read from
+		g.labels["value-from-path-read"] = true
+		base := rapid.SampledFrom([]string{"v2", "v3"}).Draw(g.t, "rdbase")
+		return g.chain(ast.Id(base), g.cur.Globals[base], true, g.n(1, 2, "rddepth"))
+	}
 	switch g.n(0, 5, "vkind") {
 	case 0, 1, 2:
 		return g.scalar()
@@ -313,7 +321,8 @@ func (g *c09Gen) action() bool {
 	}
 	var stmts []*ast.Node
 	label := ""
-	switch k := g.n(0, 19, "action"); {
+	g.cur = &st
+	switch k := g.n(0, 21, "action"); {
 	case k <= 1:
 		v := c09Vars[g.n(0, len(c09Vars)-1, "v")]
 		stmts = append(stmts, ast.ExprS(ast.Set(ast.Id(v), g.value(st.Globals))))
@@ -355,16 +364,30 @@ func (g *c09Gen) action() bool {
 	case k == 16:
 		// scalars are passed by value
 		v := c09Vars[g.n(0, len(c09Vars)-1, "bv")]
-		stmts = append(stmts, ast.Print(ast.Str("B"), ast.Call(ast.Id("bump"), ast.Id(v))))
+		var arg *ast.Node = ast.Id(v)
+		if g.b("bumppath") {
+			// ... also when the argument is read from a (possibly missing) path
+			arg = g.reader(st)
+			if arg.K != "mem" && arg.K != "idx" {
+				arg = ast.Id(v)
+			}
+		}
+		stmts = append(stmts, ast.Print(ast.Str("B"), ast.Call(ast.Id("bump"), arg)))
 		label = "scalar-by-value"
 	case k == 17:
 		// for-in binding: element containers are shared, the loop variable itself is a copy
 		v := rapid.SampledFrom([]string{"v2", "v3"}).Draw(g.t, "lv")
 		body := ast.Block(ast.Print(ast.Str(fmt.Sprintf("K%d", g.step)), ast.Id("e")))
-		if g.b("mutelem") {
+		switch g.n(0, 3, "loopmut") {
+		case 0:
 			body.C = append(body.C, ast.If(ast.Is(ast.Id("w"), "object"), ast.Block(ast.ExprS(ast.Set(ast.Mem(ast.Id("w"), "seen"), ast.Num("1"))))))
-		} else {
+		case 1:
 			body.C = append(body.C, ast.ExprS(ast.Set(ast.Id("w"), ast.Num("9"))))
+		case 2:
+			// ++ / -- on the loop variables: they hold copies of scalars
+			body.C = append(body.C, ast.ExprS(ast.Post("++", ast.Id("w"))), ast.Print(ast.Str("dec"), ast.Pre("--", ast.Id("e"))))
+		default:
+			body.C = append(body.C, ast.ExprS(ast.Asg("+=", ast.Id("w"), ast.Num("1"))))
 		}
 		stmts = append(stmts, ast.ForIn("e", "w", ast.Id(v), body))
 		label = "forin-binding"
@@ -379,6 +402,21 @@ func (g *c09Gen) action() bool {
 		stmts = append(stmts, ast.If(ast.Bin("||", ast.Is(it, "object"), ast.Is(it.Clone(), "array")),
 			ast.Block(ast.ForIn("ik", "iv", it.Clone(), ast.Block(ast.Print(ast.Str(fmt.Sprintf("K%d", g.step)), ast.Id("ik")), ast.Print(ast.Str("V"), ast.Id("iv")))))))
 		label = "iterate"
+	case k == 20:
+		// pluck returns a new object whose scalar members are copies
+		if st.Globals["v3"].K == ref.KObj && len(st.Globals["v3"].O.Keys) > 0 {
+			key := st.Globals["v3"].O.Keys[g.n(0, len(st.Globals["v3"].O.Keys)-1, "pk")]
+			stmts = append(stmts, ast.ExprS(ast.Set(ast.Id("pl"), ast.Method(ast.Id("v3"), "pluck", ast.Str(key)))),
+				ast.ExprS(ast.Post("++", ast.Idx(ast.Id("pl"), ast.Str(key)))), ast.Print(ast.Str("PL"), ast.Id("pl")))
+			label = "pluck-then-increment"
+		} else {
+			stmts = append(stmts, ast.Print(ast.Str("R"), g.reader(st)))
+			label = "read-only"
+		}
+	case k == 21:
+		// a copy of a scalar read from a container, then changed
+		stmts = append(stmts, ast.ExprS(ast.Set(ast.Id("cp"), g.chain(ast.Id("v2"), st.Globals["v2"], true, 1))), ast.ExprS(ast.Post("++", ast.Id("cp"))), ast.Print(ast.Str("CP"), ast.Id("cp")))
+		label = "copy-then-increment"
 	case k == 18:
 		// length-changing methods through a variable or through a parameter
 		v := rapid.SampledFrom([]string{"v2", "v3", "v0"}).Draw(g.t, "pv")
